@@ -36,6 +36,9 @@ def bulk (seed : UInt64) (n k : Nat) (ts0 : Nat) : List Dp := Id.run do
 inductive POp where
   | sys (o : SysOp)
   | bulk (sh : Nat) (ds : List Dp) (roll : Bool)
+  | crashB (m : Nat)     -- block-rotation pass that dies after m steps (last op, one shard)
+  | crashR (m : Nat)     -- first restart dies after m steps of RecoverWALData (last op, one shard)
+  | crashE (m : Nat)     -- meta-WAL write that dies after m steps (last op, one shard)
 
 def parseOp (nsh : Nat) (ser : List Nat) (bsh : Nat) (t : String) : Option POp :=
   match t.toList with
@@ -57,6 +60,10 @@ def parseOp (nsh : Nat) (ser : List Nat) (bsh : Nat) (t : String) : Option POp :
     | 'n', [""] => some (.sys (.all .nameFlush))
     | 'e', [""] => some (.sys .metaFlush)
     | 's', [k] => do let k ← nat? k; if k ≥ nsh then none else some (.sys (.shard k .segRotate))
+    | 'x', [kind, m] => do
+      let m ← nat? m
+      if nsh ≠ 1 || m < 1 || m > 1000 then none
+      else if kind = "b" then some (.crashB m) else if kind = "r" then some (.crashR m) else if kind = "e" then some (.crashE m) else none
     | _, _ => none
 
 def applyOp (cap : Nat) (s : Sys) : POp → Sys
@@ -68,6 +75,13 @@ def applyOp (cap : Nat) (s : Sys) : POp → Sys
       if !ds.isEmpty && st.buf.length + ds.length ≤ cap then
         { s with shards := modifyNth (ingestMany 999 ds) sh s.shards }      -- = the fold below (ingestMany_eq_foldl)
       else ds.foldl (fun s d => sysStep cap s (.shard sh (.ingest 999 d roll))) s
+  | .crashB m => { s with shards := modifyNth (blockRotateCrash m) 0 s.shards }
+  | .crashR _ => s
+  | .crashE m => metaFlushCrash m s
+
+def isCrash : POp → Bool
+  | .crashB _ | .crashR _ | .crashE _ => true
+  | _ => false
 
 /-! ### printing -/
 
@@ -107,16 +121,19 @@ def lt2 (a b : Nat × Nat) : Bool := a.1 < b.1 || (a.1 == b.1 && a.2 < b.2)
 def lastWins (l : List MetaEntry) : List MetaEntry :=
   l.foldl (fun acc e => (acc.filter (fun x => !(x.shard == e.shard && x.seg == e.seg))) ++ [e]) []
 
-def render (s : Sys) : String :=
+def render (s : Sys) (recCrash : Option Nat) : String :=
   let d := readDir (sysDir s)
   let dirS := ",".intercalate (d.map (fun f => s!"{str f.1}:{(fileDps f).length}"))
   let gs := sortBy (fun a b => lexLt a.info.key b.info.key) (groups (sysDir s))
   let ordS := ";".intercalate (gs.map (fun g => s!"{str g.info.key}:{",".intercalate (g.files.map (fun f => walIdxOf f.1))}"))
-  let disk := sortBy (fun a b => lt3 (keyNum a.1) (keyNum b.1)) (sysDiskAfterRecovery s)
+  let disk0 := match recCrash with
+    | none => sysDiskAfterRecovery s
+    | some m => diskAfterCrashedRecovery m (sysDir s) (sysDurable s)
+  let disk := sortBy (fun a b => lt3 (keyNum a.1) (keyNum b.1)) disk0
   let diskS := ";".intercalate (disk.map (fun (k, dps) =>
     let ser := ",".intercalate ((seriesDigests dps).map (fun (sid, n, h) => s!"{sid}={n}:{natHexW h.toNat 16}"))
     s!"{str k.1}/{k.2.1}/{k.2.2}:{ser}"))
-  let names := sortBy (fun a b => lt2 (a.1, a.2.1) (b.1, b.2.1)) (sysNamesAfterRecovery s)
+  let names := sortBy (fun a b => lt2 (a.1, a.2.1) (b.1, b.2.1)) (sysNamesAfterRecoveryOn disk0 s)
   let namesS := ";".intercalate (names.map (fun (sh, seg, ns) =>
     s!"{sh}/{seg}:{",".intercalate ((sortBy (fun a b => decide (a < b)) ns).map toString)}"))
   let metas := sortBy (fun a b => lt2 (a.shard, a.seg) (b.shard, b.seg)) (lastWins (sysMetaAfterRecovery s))
@@ -139,7 +156,13 @@ def walrecover (args : List String) : String :=
           let ops? : Option (List POp) := if e.isEmpty then some [] else (e.splitOn ";").mapM (parseOp nsh ser bsh)
           match ops? with
           | none => "bad-op"
-          | some ops => render (ops.foldl (applyOp cap) (Sys.init nsh))
+          | some ops =>
+            -- a crash op is only allowed as the last op
+            if (ops.dropLast.any isCrash) then "bad-op" else
+            let rc := match ops.getLast? with
+              | some (.crashR m) => some m
+              | _ => none
+            render (ops.foldl (applyOp cap) (Sys.init nsh)) rc
       | _, _, _ => "bad-op"
     | _, _, _, _, _ => "bad-op"
   | _ => "bad-op"
